@@ -19,6 +19,46 @@ CLAIMED = {
          "recurrence incl. the three-tick clear rule; zero jerk coincides with move_dist_lt. Correspondence with ebb_calc.py over the firmware-valid domain under varying mpmath precision.",
          NOTE_COMMON + "The accumulated rounding error of the jerk/6 path staying below 1/2 before round() is sampled, not proved.",
          "DESIGN.md section 5, C02"),
+ "C03": ("Coq proof: O(1) checker equivalent to the tick-by-tick 'first tick reaching the budget' spec for all integers; every implementation output decided by it",
+         "Theorem C03_checker_iff_spec: for all integers lm_check (closed-form total, closed-form count of steps taken around the single sign change of the rate) holds of an output "
+         "iff the output is the first tick at which the steps taken under the C01 recurrence reach the budget, with that tick's position and accumulator; C03_consequence: the accumulator "
+         "is in [0,2^31) and the timed-move recurrence at the reported duration reproduces position and accumulator; C03_invalid. calculate_lm / moveTimeLM outputs on valid moves "
+         "(reversals at tick 1,2,3,.., step-boundary landings, durations to 2^32) are decided by the checker inside Coq (translation validation of outputs). The reversal branches of the "
+         "tree as found violated the property and were repaired in /repo.",
+         NOTE_COMMON + "No theorem is stated about the floating/mpmath text of calculate_lm itself (sqrt, ceil): the tie to the code is the proved checker applied to sampled outputs.",
+         "DESIGN.md section 5, C03"),
+ "C04": ("Coq proof: induction over all call histories and I/O scripts on a model of all 32 request methods + connect/disconnect; correspondence by history replay",
+         "Theorems C04_step_silent, C04_err_first_wins, C04_history, C04_only_connect_writes: for every history of public calls, every start state and every I/O script (a fault at any read or write), "
+         "a request on an object that is not connected or holds an error writes nothing, consumes nothing, returns its failure value and changes nothing; the recorded error is never replaced; "
+         "only connect writes after an error. The model is replayed against ebb3_serial/ebb3_motion on systematic (method x latched pre-state x reconnect handshake) and random histories.",
+         NOTE_COMMON + "pyserial is a fake port (write/readline succeed, time out, or raise SerialException).", "DESIGN.md section 5, C04"),
+ "C05": ("Coq proof: framing/outcome of command and query for all scripts, no-raise of the primitives, attribution by induction over request lists; fault-position enumeration",
+         "Theorems C05_command_frame/outcome, C05_query_frame/outcome, C05_primitives_no_raise, C05_attribution: one write of the trimmed text, at most 26 reads, success iff the reply begins with the "
+         "request's name and has no 'Err:', payload = reply minus name and one comma, failures recorded, no exception from the primitives for any script, and against a conforming device every "
+         "request of any sequence consumes exactly its own reply. Every method is run with a fault / error line / wrong name / silence at every I/O position of its nominal exchange.",
+         NOTE_COMMON + "Methods that parse a payload are shown not to raise only for well-formed payloads (sampled); the reboot-class exemption is stated.", "DESIGN.md section 5, C05"),
+ "C06": ("Coq proof: emitted text = documented table for all integer arguments, pause chunking by induction, suppression iff; correspondence per helper",
+         "Theorems C06_legacy, C06_ebb3, C06_layers_agree, C06_pause, C06_lowlevel_suppressed_iff on the models of the text construction of both layers; the bytes written by every helper "
+         "against an all-acknowledging port are compared with the model and with Spec/EbbDoc.v (zero-valued optional arguments, chunk boundaries, all zero/non-zero patterns of LM arguments).",
+         NOTE_COMMON + "The documented table is transcribed from the repository's docstrings; the theorem content is a table equality, the weight is in the correspondence.", "DESIGN.md section 5, C06"),
+ "C07": ("Coq proof: shape/no-raise for all scripts, alignment by induction over request sequences against the conforming legacy board; correspondence",
+         "Theorems C07_query, C07_command, C07_one_aligned, C07_sequence_aligned, C07_as_found_refuted on the model of ebb_serial.query/command: one write at most, never an exception, text back, "
+         "no-op without port/text; every sequence of requests against a conforming board (each line preceded by <= 100 empty reads) returns request k's own data line and consumes exactly its replies.",
+         NOTE_COMMON, "DESIGN.md section 5, C07"),
+ "C08": ("Coq proof (field/lra over Q): Cohen-Sutherland invariant, termination measure, exact result; Fractions correspondence; floats judged by a sandwich checker",
+         "Theorems C08_result, C08_accept_iff, C08_no_div0, C08_measure: for all rational segments and rectangles (min<=max) the model of clip_segment accepts iff some point of the segment is inside, "
+         "returns seg(t1), seg(t2) with 0<=t1<=t2<=1 covering every inside parameter, never divides by zero, never reaches the failsafe (each clip lowers the number of violated sides). "
+         "The code runs unchanged on Fractions and is compared exactly; float runs are judged in exact arithmetic with eps = 1e-9 x scale.",
+         NOTE_COMMON + "Float rounding staying inside the tolerance is sampled, not proved; the sandwich checker is an executable specification.", "DESIGN.md section 5, C08"),
+ "C09": ("Coq proof: predicate = true point-segment distance (nra over Q), reduction relation by induction on the nested loops; Fractions correspondence with object identity",
+         "Theorems C09_predicate_is_distance, C09_points_in_tolerance, C09_reduction, C09_subsequence, C09_unchanged: the fast predicate accepts a point iff some point of the chord is strictly "
+         "closer than the tolerance; supersample only deletes, keeps first and last vertex, and every deleted vertex passes that test against the segment joining its surviving neighbours.",
+         NOTE_COMMON + "max_dist_from_n_points (float sqrt) is compared outside a 1e-9 band around the tolerance.", "DESIGN.md section 5, C09"),
+ "C10": ("Coq proof: de Casteljau halves (field), refinement relation and dyadic tiling by induction; termination NOT proved (partial); float-exact correspondence",
+         "Theorems C10_halves, C10_refines_and_flat, C10_dyadic_tiling, C10_nodes_survive, C10_flat_is_distance, C10_terminates_partial: a returning run replaces each original piece by its halves "
+         "recursively (pieces = the original restricted to consecutive dyadic intervals tiling [0,1]), keeps the outer handles and all original nodes, and leaves only flat pieces. "
+         "Termination is not proved: only fuel-independence of returning runs.",
+         NOTE_COMMON + "beziersplitatt is dependency code (modelled). On the quarter-integer grid the float run is exact and compared node for node.", "DESIGN.md section 5, C10"),
  "C11": ("Coq proof (field/lra over Q) of the SVG equations for the numeric core + kernel-evaluated parse sweep + bit-exact float correspondence",
          "Theorem C11_core: for all positive sizes and every alignment x meet/slice the exact-layer result satisfies the SVG 1.1 preserveAspectRatio equations; C11_valid ties the "
          "string layer to the core; C11_parse_sweep decides 8100 case/separator/defer spellings in the kernel; identity and no-raise theorems. The same model with round-to-nearest-even "
@@ -31,11 +71,25 @@ CLAIMED = {
          "with plot_utils on generated and malformed strings.",
          NOTE_COMMON + "Numeral -> value is the modelled decimal grammar (inf/nan/underscore literals are outside it); float rounding executed by Base/Rnd.v.",
          "DESIGN.md section 5, C12"),
+ "C13": ("Coq proof: adjacency = Chebyshev-1 neighbourhood for all bins, nearest() = first minimum over the stored ids of the neighbourhood; grid invariant NOT proved (partial); history correspondence",
+         "Theorems C13_adjacent, C13_within_one_cell, C13_nearest_partial. The statement that after construction and removals each cell holds exactly the live ends lying in it is not proved; "
+         "that part is carried by the correspondence: the model is replayed on histories of queries and removals on Fractions, and every answer is judged by brute force over the live ends.",
+         NOTE_COMMON, "DESIGN.md section 5, C13"),
  "C14": ("Coq proof: query = brute force for all box lists (induction on fuel = size) + exact-rational correspondence",
          "Theorem C14_query_eq_brute: for every list of valid boxes and every query the model of Index(...).intersection returns exactly the ids whose box overlaps the query; "
          "C14_terminates: the recursion depth is bounded by the number of boxes (fuel-irrelevance); C14_strict_refuted: the constructor as found (strict tests) violated the property "
          "(repaired in /repo e004255). Model tied to rtree.py by running both on Fractions; float runs are judged by brute force.",
          NOTE_COMMON, "DESIGN.md section 5, C14"),
+ "C15": ("Coq proof: numeric version order laws, connect characterisation for all handshake scripts, legacy gates; correspondence against packaging.version",
+         "Theorems C15_order_is_numeric, C15_order_laws, C15_min_version, C15_connect, C15_gate_*: the order is the padded component-wise numeric order; connect returns True only with an open port "
+         "and a parsed version >= 3.0.2 from an EBB reply, False always with an error recorded and at most two probes written; each gated legacy helper writes its command only after the board "
+         "reported at least the threshold version.",
+         NOTE_COMMON + "packaging.version.parse is modelled for dotted decimals and compared on every generated pair.", "DESIGN.md section 5, C15"),
+ "C16": ("Coq proof: int32 split/join for all values; motor protocol (20 states x 36 requests) and byte exchange (256 x 32) swept exhaustively in the kernel by co-simulation with the board model",
+         "Theorems C16_int32_split_join, C16_byte_exchange, C16_motors, C16_motors_clamp: against Spec/Board.v every int32 is stored as four big-endian bytes and read back; after motors_enable "
+         "from any prior state the enabled flags and the global mode are as requested, also when only motor 2 is enabled. The python fake board used by the harness is re-derived from "
+         "Spec/Board.v reply by reply on every run.",
+         NOTE_COMMON + "The board model is an assumption (docstrings / public command reference); no firmware source is available offline.", "DESIGN.md section 5, C16"),
  "C17": ("Coq proof: discrete convexity argument over Z for all integers and all T + correspondence",
          "Theorems C17_is_a_tick, C17_ends, C17_within_jerk, C17_limit: for all integers and every T>=1 the exact model of max_rate_t3 reports the absolute rate of some tick 1..T, "
          "at least both end rates, and every tick's absolute rate is within |jerk| of it. Correspondence with ebb_calc.max_rate_t3 on vertex-boundary families.",
@@ -47,6 +101,9 @@ CLAIMED = {
          "plot_utils.py on every run by executing both on the same exact rational inputs (the code is duck-typed and runs on Fractions).",
          NOTE_COMMON + "Float rounding inside comparisons is outside the model (floats are converted exactly).",
          "DESIGN.md section 5, C18"),
+ "C19": ("Coq proof: first/list/lookup characterisations, own-name lookup via substring lemmas, case insensitivity, layer agreement; correspondence on a descriptor grammar",
+         "Theorems C19_first, C19_list, C19_lookup, C19_own_name_matches, C19_lookup_self, C19_case_insensitive, C19_layers for all port lists and names (ASCII).",
+         NOTE_COMMON, "DESIGN.md section 5, C19"),
  "C20": ("Coq proof: escape = per-character map, decode round trip, hms arithmetic + correspondence incl. lxml as reference parser",
          "Theorems: xml_escape is a per-character map, leaves no raw special, every & starts an entity, and an XML parser (Spec/Xml.v, validated against lxml each run) reads the escaped text "
          "back as the original in content (no CR) and in attributes (no TAB/LF/CR); the statement without those side conditions is refuted (known finding C20-D10). format_hms: for every "
